@@ -8,6 +8,10 @@ CHECKS = {
             "Seeded whole-pipeline simulation (real CLI on SimFS, seeded solver peer, option swarm); every emitted block is compared with its input by a reference EVM interpreter on seeded states. Sampling: a clean batch is evidence, not proof.",
             "Trusts the reference interpreter R1 (gsim/ref/evm.py), z3 4.8.12 as honest peer, sampled 256-bit states; OptiMathSAT is a wire-format stub.",
             TECH + ": seeded solver-peer replies and option swarm over the real pipeline, reference-interpreter oracle"),
+    "C08": ("exploration", "§5 C08",
+            "Seeded whole-pipeline simulation with a solver peer biased to tempt the accept/reject logic (non-optimal, cost-maximising, no model/unsat with and without a greedy candidate, greedy forced to fail); every emitted block is priced by the independent cost model R4 and compared with its input; printed totals are compared with R4 sums over the input and the emitted file.",
+            "Trusts R4 (gsim/ref/cost.py) as transcription of the documented static cost model; sampled blocks/option sets.",
+            TECH + ": peer replies chosen to tempt the acceptance gate, independent cost model as oracle"),
 }
 NA = {
     "C03": "pure function of a term on 256-bit words: no schedule, clock, peer, file, crash or history between term and rewritten term (rule bait still runs through C01/C02 as a side effect)",
